@@ -4,7 +4,7 @@
    any schedule, any capacity, sequentially consistent interleaving.  The theorems are about
    programs without abandoned calls (`crash_free`); the crash clause is at the end. *)
 From V Require Import model.Base model.Conc model.Events model.Container.
-From V Require Import proofs.ContainerBase proofs.ContainerInv proofs.ContainerStep proofs.ContainerProofs.
+From V Require Import proofs.ContainerBase proofs.ContainerInv proofs.ContainerStep proofs.ContainerProofs proofs.ContainerQuiet.
 Open Scope N_scope.
 
 (* never torn: whenever thread t's snapshot lists slot i (odd generation) -- at any time except
@@ -112,13 +112,71 @@ Theorem c10_crash_clause_partial : forall c d0 d1 d2 progs g ls t i,
 Proof. intros; split; [eapply no_torn|eapply snapshot_not_ahead]; eauto. Qed.
 Print Assumptions c10_crash_clause_partial.
 
-(* eventually exact, as a statement (NOT proved, see tools/claims/C10.json): once no writer call is
-   running and only readers step, a reader's next completed update_state leaves its snapshot equal
-   to the container (generation and payload of every slot) and a further call returns false. *)
-Definition c10_quiescent_exact_full : Prop :=
-  forall c d0 d1 d2 progs g ls s g' ls' t,
-    crash_free progs -> reachable step (init c d0 d1 d2 progs) (g, ls) ->
-    (forall u, pc (ls u) = Idle) -> (forall u, In u s -> forallb (fun o => match o with CUpd => true | _ => false end) (prog (ls u)) = true) ->
-    fst (run step s (g, ls)) = (g', ls') -> clock g <= ustart (ls' t) -> pc (ls' t) = Idle ->
-    (forall i, i < cap g' -> rgen (ls' t) i = gens g' i /\ (odd (gens g' i) = true -> rdata (ls' t) i = datas g' i)) /\
-    rchange (ls' t) = change g'.
+(* ---- eventually exact ---- *)
+(* Start in any reachable state in which no call is in flight; let any schedule s run in which only
+   threads with nothing but update_state left in their programs are scheduled (readers, in any
+   interleaving).  Then the container does not change, and a thread t that has consumed at least
+   one update_state of its program and is back at Idle (it ran a refresh to completion) holds, for
+   every slot, exactly the container's generation and -- for the listed (odd) slots -- payload;
+   the listed slots are exactly the slots whose index is owned; its change counter is current. *)
+Theorem c10_quiescent_exact : forall c d0 d1 d2 progs g ls s g' ls' t,
+  crash_free progs -> reachable step (init c d0 d1 d2 progs) (g, ls) ->
+  (forall u, pc (ls u) = Idle) ->
+  (forall u, In u s -> upd_only (prog (ls u)) = true) ->
+  fst (run step s (g, ls)) = (g', ls') ->
+  pc (ls' t) = Idle -> (length (prog (ls' t)) < length (prog (ls t)))%nat ->
+  (forall i, i < cap g ->
+     rgen (ls' t) i = gens g i /\ (odd (gens g i) = true -> rdata (ls' t) i = datas g i) /\
+     (odd (gens g i) = true <-> cells g i <> EMPTY)) /\
+  rchange (ls' t) = change g /\
+  gens g' = gens g /\ datas g' = datas g /\ cells g' = cells g /\ change g' = change g.
+Proof. exact quiescent_exact. Qed.
+Print Assumptions c10_quiescent_exact.
+
+(* ... and a refresh that starts with a current change counter returns false (the R line of the
+   call carries changed = false) and leaves the snapshot untouched *)
+Theorem c10_refresh_unchanged : forall t g l p,
+  fuse l = None -> pc l = Idle -> prog l = CUpd :: p -> rchange l = change g ->
+  exists l' es, step t g l = Some (tick (tick g), l', es) /\ pc l' = Idle /\ ulast l' = false /\
+                rgen l' = rgen l /\ rdata l' = rdata l /\ rchange l' = rchange l /\
+                In (upd_ret g l false) es.
+Proof. exact refresh_unchanged. Qed.
+Print Assumptions c10_refresh_unchanged.
+
+(* the same facts at any reachable state in which every thread is at Idle or inside update_state *)
+Theorem c10_quiet_snapshot_is_container : forall c d0 d1 d2 progs g ls t i,
+  crash_free progs -> reachable step (init c d0 d1 d2 progs) (g, ls) ->
+  (forall u, reader_pc (pc (ls u))) ->
+  pc (ls t) = Idle -> rchange (ls t) = change g -> i < cap g ->
+  rgen (ls t) i = gens g i /\ (odd (gens g i) = true -> rdata (ls t) i = datas g i).
+Proof. intros. eapply quiet_sync; eauto. eapply inv2_reach; eauto. Qed.
+Print Assumptions c10_quiet_snapshot_is_container.
+Theorem c10_quiet_listed_iff_owned : forall c d0 d1 d2 progs g ls i,
+  crash_free progs -> reachable step (init c d0 d1 d2 progs) (g, ls) ->
+  (forall u, reader_pc (pc (ls u))) ->
+  (odd (gens g i) = true <-> cells g i <> EMPTY).
+Proof. intros. eapply quiet_live; eauto. eapply inv2_reach; eauto. Qed.
+Print Assumptions c10_quiet_listed_iff_owned.
+
+(* non-vacuity: cap 2; the writer runs a1,a2,r0 to completion while the reader is idle (so the
+   reader's state is stale: change counter 0 against 3); then only the reader runs: its first
+   refresh ends with slot 0 empty (generation 2) and slot 1 = (1, payload 2) *)
+Definition qx_progs (t : nat) : list cop :=
+  match t with O => [CAdd 1 None; CAdd 2 None; CRem 0 None] | S O => [CUpd; CUpd] | _ => [] end.
+Definition qx_start := fst (run step (repeat 0%nat 60) (init 2 7 8 9 qx_progs)).
+Example c10_quiescent_nonvacuous :
+  crash_free qx_progs /\ reachable step (init 2 7 8 9 qx_progs) (fst qx_start, snd qx_start) /\
+  (forall u, pc (snd qx_start u) = Idle) /\
+  (forall u, In u (repeat 1%nat 9) -> upd_only (prog (snd qx_start u)) = true) /\
+  let c' := fst (run step (repeat 1%nat 9) (fst qx_start, snd qx_start)) in
+  pc (snd c' 1%nat) = Idle /\ (length (prog (snd c' 1%nat)) < length (prog (snd qx_start 1%nat)))%nat /\
+  change (fst qx_start) = 3 /\ rchange (snd qx_start 1%nat) = 0 /\
+  rgen (snd c' 1%nat) 0 = 2 /\ rgen (snd c' 1%nat) 1 = 1 /\ rdata (snd c' 1%nat) 1 = 2.
+Proof.
+  split; [intros [|[|t]]; reflexivity|].
+  split; [exists (repeat 0%nat 60); unfold qx_start; rewrite <- surjective_pairing; reflexivity|].
+  split; [intros [|[|u]]; vm_compute; reflexivity|].
+  split; [intros u Hin; apply repeat_spec in Hin; subst u; vm_compute; reflexivity|].
+  vm_compute. repeat split; auto.
+Qed.
+Print Assumptions c10_quiescent_nonvacuous.
